@@ -7,8 +7,29 @@ LIB = ["src/lib/ares_library_init.c", "src/lib/util/ares_math.c"]
 ARRAY_OPS = ["insert_at", "insertdata_at", "insertdata_first", "insertdata_last", "insert_first", "insert_last",
              "remove_at", "remove_first", "remove_last", "claim_at", "set_size", "first_last", "finish"]
 
+LLIST_OPS = ["insert_first", "insert_last", "insert_before", "insert_after", "node_claim", "node_destroy", "node_replace",
+             "mvparent_first", "mvparent_last", "clear", "destroy", "replace_destructor", "rejects", "insert_oom"]
+
+
+def llist_jobs(tier):
+    J = []
+    for op, opname in enumerate(LLIST_OPS):
+        wit = ["end"]
+        if opname in ("insert_before", "insert_after"):
+            wit.append("inner node")
+        if opname.startswith("mvparent"):
+            wit.append("moved between lists")
+        J.append(dict(name="llist_%s" % opname, harness="llist_step.c", defines=["-DOP=%d" % op], real=LIB, unwind=10,
+                      leak=True, witnesses=wit, kf_group="llist_step",
+                      bound="two ares_llist lists in any valid state with 0..3 and 0..2 nodes, destructor set or NULL; ONE "
+                            "%s on any list/node; forward+backward traversal, len, idx, head/tail, parents, destructor "
+                            "calls and leaks checked on both lists" % opname))
+    return J
+
+
 def jobs(tier, seed):
     J = []
+    J += llist_jobs(tier)
     for ms in ((1, 2) if tier == "quick" else (1, 2, 4)):
         for ac in (0, 4, 8):
             for op, opname in enumerate(ARRAY_OPS):
